@@ -97,18 +97,31 @@ func tsMethod(f *ast.File, name string) (*ast.FuncDecl, string) {
 	return found, found.Recv.List[0].Names[0].Name
 }
 
-// every use of the field `field` in the file must be the one assignment we read or the sole
-// argument of a `WriteString` call
+// every use of the field `field` in the file must be the one assignment we read, the sole argument of a `WriteString`
+// call, or an element of a slice literal (the ordered list of sections a loop writes out): never an operand of another
+// call or expression that could change the text on its way into the file
 func checkFieldUses(f *ast.File, field string, theAssign *ast.AssignStmt) {
 	allowed := map[*ast.SelectorExpr]bool{}
 	allowed[theAssign.Lhs[0].(*ast.SelectorExpr)] = true
 	writes := 0
 	ast.Inspect(f, func(n ast.Node) bool {
-		if c, ok := n.(*ast.CallExpr); ok && len(c.Args) == 1 {
-			if fs, ok := c.Fun.(*ast.SelectorExpr); ok && fs.Sel.Name == "WriteString" {
-				if a, ok := c.Args[0].(*ast.SelectorExpr); ok && a.Sel.Name == field {
-					allowed[a] = true
-					writes++
+		switch c := n.(type) {
+		case *ast.CallExpr:
+			if len(c.Args) == 1 {
+				if fs, ok := c.Fun.(*ast.SelectorExpr); ok && fs.Sel.Name == "WriteString" {
+					if a, ok := c.Args[0].(*ast.SelectorExpr); ok && a.Sel.Name == field {
+						allowed[a] = true
+						writes++
+					}
+				}
+			}
+		case *ast.CompositeLit:
+			if _, isArr := c.Type.(*ast.ArrayType); isArr {
+				for _, e := range c.Elts {
+					if a, ok := e.(*ast.SelectorExpr); ok && a.Sel.Name == field {
+						allowed[a] = true
+						writes++
+					}
 				}
 			}
 		}
@@ -119,7 +132,7 @@ func checkFieldUses(f *ast.File, field string, theAssign *ast.AssignStmt) {
 	}
 	ast.Inspect(f, func(n ast.Node) bool {
 		if s, ok := n.(*ast.SelectorExpr); ok && s.Sel.Name == field && !allowed[s] {
-			panic("field " + field + " is used outside its one assignment and its one WriteString")
+			panic("field " + field + " is used outside its one assignment and its one place in the output")
 		}
 		return true
 	})
